@@ -292,15 +292,17 @@ class Rec:
         self.sent = {}
 
 
-def run_sync(execnet, gws, srcdir, targets, cwd):
-    """targets: list of (gateway index, destdir, delete).  returns per target list of transferred rel paths"""
+def run_sync(execnet, gws, srcdir, targets, cwd, reuse=None, variant=(False, False)):
+    """targets: list of (gateway index, destdir, delete).  returns per target list of transferred rel paths.
+    reuse: a list holding the RSync object of the previous step of this case (the same object gets its targets added again and
+    send() called again -- what send()'s own error message about a second call suggests), or None for a new object per step"""
     from execnet.rsync import RSync
 
     rec = {}
 
     class R(RSync):
         def _report_send_file(self, gateway, modified_rel_path):
-            rec.setdefault(gateway.id, []).append(modified_rel_path)
+            self.rec.setdefault(gateway.id, []).append(modified_rel_path)
 
     err = []
 
@@ -308,15 +310,25 @@ def run_sync(execnet, gws, srcdir, targets, cwd):
         old = os.getcwd()
         try:
             os.chdir(cwd)
-            r = R(srcdir, verbose=False)
+            if reuse:
+                r = reuse[0]
+            else:
+                # variant: a progress callback (documented constructor argument) / the destination spelled with a trailing slash
+                r = R(srcdir, callback=(lambda *a: None) if variant[0] else None, verbose=False)
+                if reuse is not None:
+                    reuse.append(r)
+            r.rec = rec
             for gi, dest, delete in targets:
+                if variant[1]:
+                    dest = dest + "/"
                 if delete:
                     r.add_target(gws[gi], dest, delete=True)
                 else:
                     r.add_target(gws[gi], dest)
             r.send()
         except BaseException as e:  # noqa
-            err.append(repr(e)[:300])
+            import traceback
+            err.append(repr(e)[:300] + " @ " + " <- ".join("%s:%d" % (os.path.basename(f.filename), f.lineno) for f in traceback.extract_tb(e.__traceback__)[-3:]))
         finally:
             os.chdir(old)
 
@@ -394,6 +406,8 @@ def main(tier, seed, replay=None):
             else:
                 cwd, cwdm = os.path.join(srcdir, NAMES[subdirs[0]]), [subdirs[0]]
             steps = crng.choice([1, 1, 2, 3])
+            reuse = [] if crng.random() < 0.5 else None
+            variant = (crng.random() < 0.3, crng.random() < 0.3)
             for step in range(steps):
                 if step:
                     # modify the source, then resync (or resync unchanged)
@@ -411,13 +425,14 @@ def main(tier, seed, replay=None):
                 priors = []
                 for ti, dest, delete in targets:
                     priors.append(walk(dest, srcdir, dest) if os.path.lexists(dest) else None)
-                trs, err = run_sync(execnet, gws, srcdir, targets, cwd)
+                trs, err = run_sync(execnet, gws, srcdir, targets, cwd, reuse, variant)
+                ck.count("rsync_object_reused" if reuse is not None and step else "rsync_object_new")
                 ncases += 1
                 ck.count("syncs")
                 ck.count("cwd_" + cwdk)
                 ck.count("targets_%d" % ntargets)
                 for (ti, dest, delete), prior, k in zip(targets, priors, range(ntargets)):
-                    ex = {"case": case, "step": step, "target": ti, "delete": delete, "cwd": cwdk, "src": show(srcw), "prior": show(prior)}
+                    ex = {"case": case, "step": step, "target": ti, "delete": delete, "cwd": cwdk, "src": show(srcw), "prior": show(prior), "rsync_object_reused": bool(reuse is not None and step), "progress_callback": variant[0], "dest_trailing_slash": variant[1]}
                     ck.case((cs, step, ti), nontrivial=True)
                     if err:
                         ck.fail("send-raised-or-hung:" + err[0][:60], ex)
@@ -487,4 +502,4 @@ def main(tier, seed, replay=None):
             ck.cov["model_mismatches"] = bad
     ck.cov["traces_validated_against_impl"] = len(mcases)
     ck.cov["model_cfg_from_facts"] = {"file_mode_exact": fme, "rel_links_asis": rla}
-    return ck.finish(rule="generated source trees (names with spaces and non-ASCII, empty/binary files up to 4000 bytes, 10 file modes, 6 dir modes, 6 mtimes incl. sub-second, nesting <= 3, relative links with '..', absolute links into the source tree, absolute links elsewhere) x prior target states (absent, equal, mutated per entry: missing / other kind / mode only / mtime only / other size / same size other content / same size+mtime other content, unrelated extras, unrelated tree, a file in place of the directory) x delete x 1-3 targets x cwd in {/, source dir, a source subdirectory} x 1-3 modify-then-resync steps; real RSync over 3 real popen gateways. distinct = (tree seed, step, target).")
+    return ck.finish(rule="generated source trees (names with spaces and non-ASCII, empty/binary files up to 4000 bytes, 14 file modes (000 included), 6 dir modes, 6 mtimes incl. sub-second, nesting <= 3, relative links with '..', absolute links into the source tree, absolute links elsewhere) x prior target states (absent, equal, mutated per entry: missing / other kind / mode only / mtime only / other size / same size other content / same size+mtime other content, unrelated extras, unrelated tree, a file in place of the directory) x delete x 1-3 targets x cwd in {/, source dir, a source subdirectory} x 1-3 modify-then-resync steps (half of the cases through ONE RSync object whose targets are added again; 30 % with a progress callback, 30 % with the destination spelled with a trailing slash); real RSync over 3 real popen gateways. distinct = (tree seed, step, target).")
